@@ -337,4 +337,77 @@ example : (Model.Timer.observe Model.Timer.init
     [some (.tac 5), some (.tima 0xff), some (.tma 0x42), none, none, none]).map (fun o => (o.tima, o.irq))
     = [(1, false), (0xff, false), (0xff, false), (0xff, false), (0, true), (0x42, false)] := by decide
 
+/-! ### DIV, TMA, TAC: for ANY order of single calls (several writes per cycle included) -/
+
+private theorem call_regs (t : Model.Timer.T) (c : Call) :
+    (Model.Timer.call t c).counter = Spec.Timer.sysEvent t.counter c ∧
+    (Model.Timer.call t c).tma = Spec.Timer.tmaEvent t.tma c ∧
+    (Model.Timer.call t c).tac = Spec.Timer.tacEvent t.tac c := by
+  cases c with
+  | tick =>
+    simp [Model.Timer.call, Model.Timer.endCycle, endCyclePre_eq, Spec.Timer.sysEvent, Spec.Timer.sysNext,
+      Spec.Timer.tmaEvent, Spec.Timer.tacEvent]
+  | write w =>
+    cases w <;>
+    simp only [Model.Timer.call, Model.Timer.applyWrite, Model.Timer.writeDIV, Model.Timer.reset,
+      Model.Timer.writeTAC, Model.Timer.writeTIMA, Model.Timer.writeTMA, checkFallingEdge_eq,
+      Spec.Timer.sysEvent, Spec.Timer.tmaEvent, Spec.Timer.tacEvent] <;>
+    (repeat' split) <;> simp
+
+/-- C12 (registers, free shape).  After ANY sequence of API calls – ticks and writes in any order,
+    any number of writes between two ticks – the internal counter, TMA and TAC of the code model are
+    the folds of the obvious per-event functions: the counter advances by 4 (mod 2^16) per tick and
+    is cleared by every DIV write; TMA and TAC hold the last value written.  (This is what the
+    correspondence compares after every call, also outside guest-shaped schedules.) -/
+theorem c12_regs_free (t : Model.Timer.T) (cs : List Call) :
+    (Model.Timer.runCalls t cs).counter = cs.foldl Spec.Timer.sysEvent t.counter ∧
+    Model.Timer.readTMA (Model.Timer.runCalls t cs) = cs.foldl Spec.Timer.tmaEvent t.tma ∧
+    Model.Timer.readTAC (Model.Timer.runCalls t cs) = cs.foldl Spec.Timer.tacEvent t.tac % 8 + 0xf8 := by
+  induction cs generalizing t with
+  | nil => exact ⟨rfl, rfl, rfl⟩
+  | cons c cs ih =>
+    obtain ⟨h1, h2, h3⟩ := call_regs t c
+    have := ih (Model.Timer.call t c)
+    simp only [Model.Timer.runCalls, List.foldl_cons, Model.Timer.readTMA, Model.Timer.readTAC] at *
+    rw [h1, h2, h3] at this
+    exact this
+
+/-- C12 (DIV).  DIV is the upper byte of a 16-bit counter that advances by 4 per machine cycle and is
+    cleared by any DIV write, for any interleaving of calls. -/
+theorem c12_div (t : Model.Timer.T) (cs : List Call) :
+    Model.Timer.readDIV (Model.Timer.runCalls t cs) = cs.foldl Spec.Timer.sysEvent t.counter / 256 := by
+  simp only [Model.Timer.readDIV, (c12_regs_free t cs).1]
+
+/-- a DIV write makes DIV read 00 at once, whatever value is written and whatever the state -/
+theorem c12_div_write_clears (t : Model.Timer.T) :
+    Model.Timer.readDIV (Model.Timer.applyWrite t .div) = 0 := by
+  simp [Model.Timer.readDIV, Model.Timer.applyWrite, Model.Timer.writeDIV, Model.Timer.reset,
+    checkFallingEdge_eq]
+
+private theorem sys_ticks (c n : Nat) :
+    (List.replicate n Call.tick).foldl Spec.Timer.sysEvent c = (c + 4 * n) % 65536 ∨
+    (n = 0 ∧ (List.replicate n Call.tick).foldl Spec.Timer.sysEvent c = c) := by
+  induction n generalizing c with
+  | zero => right; exact ⟨rfl, rfl⟩
+  | succ n ih =>
+    left
+    simp only [List.replicate_succ, List.foldl_cons, Spec.Timer.sysEvent, Spec.Timer.sysNext]
+    rcases ih ((c + 4) % 65536) with h | ⟨h0, h⟩
+    · rw [h]; omega
+    · subst h0; rw [h]
+
+/-- free-running closed form: after `n` ticks DIV is the upper byte of `(counter + 4n) mod 2^16` -/
+theorem c12_div_free_running (t : Model.Timer.T) (ht : t.counter < 65536) (n : Nat) :
+    Model.Timer.readDIV (Model.Timer.runCalls t (List.replicate n Call.tick)) =
+      Spec.Timer.sysAfter t.counter n / 256 := by
+  rw [c12_div]
+  rcases sys_ticks t.counter n with h | ⟨h0, h⟩
+  · rw [h]; rfl
+  · subst h0; rw [h]; simp [Spec.Timer.sysAfter]; omega
+
+example : Model.Timer.readDIV (Model.Timer.runCalls Model.Timer.init
+    [.tick, .write (.tac 5), .write .div, .tick, .write (.tima 3)]) = 0 := by decide
+example : Model.Timer.readDIV (Model.Timer.runCalls Model.Timer.init (List.replicate 13 .tick)) = 0xac := by
+  decide
+
 end Tetro.C12
